@@ -268,11 +268,20 @@ func (s *XModel) GetWithTxStatus(bucket string, key []byte) (*kledger.VersionedD
 	if err != nil {
 		return nil, false, err
 	}
-	exists, err := s.ledger.HasTransaction(data.RefTxid)
+	if len(data.RefTxid) == 0 {
+		return data, false, nil
+	}
+	// the ledger also stores the transactions of side-branch blocks: a transaction that is still in the
+	// unconfirmed table is pending even if the ledger holds a copy of it, so ask queryTx for the status
+	// (unconfirmed table first) instead of ledger.HasTransaction
+	_, confirmed, err := s.queryTx(data.RefTxid)
 	if err != nil {
+		if err == ledger.ErrTxNotFound {
+			return data, false, nil
+		}
 		return nil, false, err
 	}
-	return data, exists, nil
+	return data, confirmed, nil
 }
 
 // Select select all kv from a bucket, can set key range, left closed, right opend
